@@ -1,5 +1,6 @@
 import NanoVerif.Model.Proto
 import NanoVerif.Model.Loss
+import NanoVerif.Model.LossBatch
 /-! driver family `loss` (C06): the per-sample loss kernels at `Float` -/
 namespace NanoVerif.Driver.Loss
 open NanoVerif.Proto NanoVerif.Loss
@@ -17,6 +18,8 @@ def handle : Toks → Option String
     guard ts.isEmpty
     guard (t.length = o.length ∧ t.length > 0)
     let (k, e) ← parseId id
+    -- `loss::pinball::alpha` has the domain [0, 1]: the assignment of anything else is refused (src/loss/pinball.cpp:11)
+    if k = .pinball ∧ ¬ (0 ≤ a ∧ a ≤ 1) then pure "throw critical" else
     pure s!"ok {hexOfFloat (value k a epsF t o)} {showFloats (vgrad k a t o)} {hexOfFloat (error k e a epsF t o)}"
   | "eval" :: ts => do
     -- loss eval <id> <alpha> <t> <o>  ->  ok size value value g   (the loss as a function of the output)
@@ -29,6 +32,38 @@ def handle : Toks → Option String
     let (k, _) ← parseId id
     let v := hexOfFloat (value k a epsF t o)
     pure s!"ok {t.length} {v} {v} {showFloats (vgrad k a t o)}"
+  | "batch" :: ts => do
+    -- loss batch <id> <alpha> <n> <m> <T> <O>
+    let (id, ts) ← pStr ts
+    let (a, ts) ← pFloat ts
+    let (n, ts) ← pNat ts
+    batchAnswer id a n ts
+  | "batch4" :: ts => do
+    -- loss batch4 <id> <alpha> <d1> <d2> <d3> <m> <T> <O>: samples of shape (d1, d2, d3), flattened
+    let (id, ts) ← pStr ts
+    let (a, ts) ← pFloat ts
+    let (d1, ts) ← pNat ts
+    let (d2, ts) ← pNat ts
+    let (d3, ts) ← pNat ts
+    batchAnswer id a (sampleSize d1 d2 d3) ts
   | _ => none
+where
+  /-- `ok (values errors grads)[the batch loops of Model/LossBatch.lean] (values errors grads)[sample by sample through the
+      indexed view `sampleAt`]` -/
+  batchAnswer (id : String) (a : Float) (n : Nat) (ts : Toks) : Option String := do
+    let (m, ts) ← pNat ts
+    let (T, ts) ← pList pFloat ts
+    let (O, ts) ← pList pFloat ts
+    guard ts.isEmpty
+    guard (n > 0 ∧ m > 0 ∧ T.length = n * m ∧ O.length = n * m)
+    let (k, e) ← parseId id
+    let vs := batchValues k a epsF n m T O
+    let es := batchErrors k e a epsF n m T O
+    let gs := batchVgrads k a n m T O
+    let idx := List.range m
+    let vs1 := idx.map (fun i => value k a epsF (sampleAt n i T) (sampleAt n i O))
+    let es1 := idx.map (fun i => error k e a epsF (sampleAt n i T) (sampleAt n i O))
+    let gs1 := (idx.map (fun i => vgrad k a (sampleAt n i T) (sampleAt n i O))).foldr (· ++ ·) []
+    pure s!"ok {showFloats vs} {showFloats es} {showFloats gs} {showFloats vs1} {showFloats es1} {showFloats gs1}"
 
 end NanoVerif.Driver.Loss
